@@ -239,3 +239,5 @@ def _batch(env, cfg):
 
 
 META['explanation'] += ' Further dimensions: exception type (Exception, StopIteration, KeyError, AttributeError, ZeroDivisionError, ValueError), sparse label outputs, two consecutive failing calls.'
+
+META['explanation'] += ' Long runs: 260 (thorough up to 1030) stored rows, one feature, default imputer; the failing callback is any of the last 24 invocations of the run.'
